@@ -46,6 +46,11 @@ def run(ctx):
     r4_no_remembered_state(ctx, facts)
     r5_datetime_suffix(ctx, facts)
     r6_daily_time_parser(ctx, facts)
+    # the first rotation point is assembled from broken-down time through detail::timegm / gmtime_rs / localtime_rs: they are libc's
+    # conversions (= C13.R7; an in-house calendar computation is answered with 'not decided')
+    from rules import c13
+    from rules.c09 import Renamed as _Ren7
+    c13.r7_time_utilities(_Ren7(ctx, "C13.R7", "C15.R7"), facts)
 
 
 def freq_tests(f, g):
